@@ -639,7 +639,13 @@ void JitCompilerA64::h_ISUB_R(Instruction& instr, uint32_t& codePos)
 	}
 	else
 	{
-		emitAddImmediate(dst, dst, -instr.getImm32(), code, k);
+		// dst -= sign-extended imm32. Negating in 32 bits first is wrong for imm32 = 0x80000000
+		// (-imm32 sign-extends to -2^31 instead of +2^31), so load the immediate and subtract it.
+		constexpr uint32_t tmp_reg = 20;
+		emitMovImmediate(tmp_reg, instr.getImm32(), code, k);
+
+		// sub dst, dst, tmp_reg
+		emit32(ARMV8A::SUB | dst | (dst << 5) | (tmp_reg << 16), code, k);
 	}
 
 	reg_changed_offset[instr.dst] = k;
